@@ -1,7 +1,8 @@
 """C13 — boundary operators form a chain complex.
 
-Cases are *recipes* for a real `xgi.SimplicialComplex` (≤ 3 generating simplices on ≤ 5 vertices, any label
-scheme, explicit or automatic simplex ids, four ways of constructing it, an orientation rule).  For every
+Cases are *recipes* for a real `xgi.SimplicialComplex` (≤ 4 generating simplices on ≤ 6 vertices, any label
+scheme, explicit or automatic simplex ids, four ways of constructing it, an orientation rule with values in
+{0, 1, 2, 3, False, True}).  For every
 recipe and every order k in 0..dim+1 the check
 
   * evaluates the clauses of C13 on what `xgi.boundary_matrix` / `xgi.hodge_laplacian` return (shape, column
@@ -32,35 +33,72 @@ from ..fn import conclude
 # vertex i of an abstract complex on {0..4} gets label SCHEME[i]; the schemes are chosen so that the code's sort
 # key (isinstance(e, str), e) differs from insertion order, from numeric order of the text, and from str order
 LABEL_SCHEMES = {
-    "range": [0, 1, 2, 3, 4],
-    "one_based": [1, 2, 3, 4, 5],
-    "reversed": [14, 11, 8, 5, 2],
-    "negative": [0, -1, 7, -3, 2],
-    "letters": ["a", "b", "c", "d", "e"],
-    "letters_rev": ["e", "d", "c", "b", "a"],
-    "numeric_text": ["10", "9", "100", "2", "1"],
-    "case": ["b", "B", "a", "A", "ab"],
-    "mixed": [0, "a", 1, "b", 2],
-    "mixed2": ["x", 3, "10", 10, -1],
-    "unicode": ["é", "z", "Z", "", " "],
+    "range": [0, 1, 2, 3, 4, 5],
+    "one_based": [1, 2, 3, 4, 5, 6],
+    "reversed": [14, 11, 8, 5, 2, -1],
+    "negative": [0, -1, 7, -3, 2, -10],
+    "letters": ["a", "b", "c", "d", "e", "f"],
+    "letters_rev": ["e", "d", "c", "b", "a", "Z"],
+    "numeric_text": ["10", "9", "100", "2", "1", "-1"],
+    "case": ["b", "B", "a", "A", "ab", "aB"],
+    "mixed": [0, "a", 1, "b", 2, "0"],
+    "mixed2": ["x", 3, "10", 10, -1, "-1"],
+    "unicode": ["é", "z", "Z", "", " ", "e"],
+}
+# float labels ("numeric labels" of the property text) are outside the Lean model (Atom = int | str): complexes with
+# these labels are evaluated on the implementation only (property predicate), not compared with the model
+FLOAT_SCHEMES = {
+    "floats": [0.5, -1.5, 2.25, 1e3, -0.0, 3.0],
+    "float_mixed": [1.5, "a", 2, -2.5, "1.5", 0],
 }
 ID_SCHEMES = {
     "auto": None,
-    "text": ["s0", "s1", "s2"],
-    "text_rev": ["z", "y", "x"],
-    "big": [100, 50, 75],
-    "mixed": ["m", 1000, "k"],
+    "text": ["s0", "s1", "s2", "s3"],
+    "text_rev": ["z", "y", "x", "w"],
+    "big": [1000, 500, 750, 600],
+    "mixed": ["m", 10000, "k", 7000],
 }
 CTORS = ["add_simplex", "add_simplices_from", "list", "dict"]
-ORIENT_MODES = ["none", "zeros", "ones", "crc", "bool"]
+# orientation values.  The docstrings of boundary_matrix / hodge_laplacian say "boolean orientation"; the code itself
+# uses the int 0 as the default and uses the values only as exponents of -1 / summands mod 2, so every natural number
+# is admissible and acts through its parity.  Modes: none = orientations=None; zeros/ones/twos/threes = that int on
+# every simplex; crc = pseudo-random int bit; bool = pseudo-random bool; int4 = pseudo-random int in 0..3;
+# mixed = per simplex a bool or an int in 0..3; explicit = {"values": [[members, value], …]} (others 0).
+# Negative values are never generated (the model's orientations are naturals; the driver answers "unmodelled").
+ORIENT_MODES = ["none", "zeros", "ones", "twos", "threes", "crc", "bool", "int4", "int4", "mixed", "mixed"]
+CONST_MODES = ("none", "zeros", "ones", "twos", "threes")
+MAX_NODES, MAX_SIMPLICES = 7, 70   # larger complexes (only a hand-written corpus/replay case can be) are not sent to the driver
 
 
 def member_key(ms):
-    return json.dumps(sorted((enc_id(x) for x in ms), key=idkey))
+    return json.dumps(sorted((enc_label(x) for x in ms), key=idkey))
 
 
-def orient_bit(ms, salt):
-    return zlib.crc32((member_key(ms) + "#%d" % salt).encode()) & 1
+def enc_label(x):
+    """like enc_id, but floats (outside the model) keep a text form so that orientation rules stay defined"""
+    try:
+        return enc_id(x)
+    except ValueError:
+        return "float:" + repr(x)
+
+
+def orient_crc(ms, salt):
+    return zlib.crc32((member_key(ms) + "#%d" % salt).encode())
+
+
+def orient_value(mode, ms, salt, explicit=None):
+    if mode in ("zeros", "ones", "twos", "threes"):
+        return {"zeros": 0, "ones": 1, "twos": 2, "threes": 3}[mode]
+    c = orient_crc(ms, salt)
+    if mode == "bool":
+        return bool(c & 1)
+    if mode == "int4":
+        return (c >> 3) & 3
+    if mode == "mixed":
+        return bool(c & 1) if (c >> 5) & 1 else (c >> 3) & 3
+    if mode == "explicit":
+        return (explicit or {}).get(member_key(ms), 0)
+    return c & 1     # crc
 
 
 def build(rec):
@@ -70,8 +108,8 @@ def build(rec):
     ctor = rec.get("ctor", "add_simplex")
     if ids is None and ctor == "dict":
         ctor = "list"
-    if ids is None and ctor in ("list", "add_simplices_from") and facets and isinstance(facets[0][0], str) \
-            and not all(isinstance(x, str) for x in facets[0]):
+    bare = (ctor == "list" and not rec.get("nodes_first")) or (ids is None and ctor in ("list", "add_simplices_from"))
+    if bare and facets and isinstance(facets[0][0], str) and not all(isinstance(x, str) for x in facets[0]):
         # xgi's format detection reads a first simplex that starts with a str as (members, id[, attr]);
         # that ambiguity of the input format is not C13's subject: put a number first
         f = facets[0]
@@ -103,27 +141,30 @@ def orientation(S, spec):
     mode, salt = spec.get("mode", "none"), spec.get("salt", 0)
     if mode == "none":
         return None
+    explicit = None
+    if mode == "explicit":
+        explicit = {member_key(ms): (bool(v) if spec.get("bool") else v) for ms, v in spec.get("values", [])}
     out = {}
     for e, ms in S.edges.members(dtype=dict).items():
         if len(ms) >= 2 or spec.get("all_keys"):
-            b = {"zeros": 0, "ones": 1}.get(mode)
-            if b is None:
-                b = orient_bit(ms, salt)
-            out[e] = bool(b) if mode == "bool" else b
+            out[e] = orient_value(mode, ms, salt, explicit)
     return out
 
 
-def gen_recipe(rng, max_vertices=5, max_facets=3):
-    nv = min(max_vertices, rng.choice([1, 2, 3, 3, 4, 4, 4, 5, 5, 5, 5, 5]))
-    scheme = rng.choice(sorted(LABEL_SCHEMES))
-    labels = LABEL_SCHEMES[scheme][:]
+def gen_recipe(rng, max_vertices=6, max_facets=4, floats=False):
+    nv = min(max_vertices, rng.choice([1, 2, 3, 3, 4, 4, 4, 5, 5, 5, 5, 5, 6, 6]))
+    schemes = FLOAT_SCHEMES if floats else LABEL_SCHEMES
+    scheme = rng.choice(sorted(schemes))
+    labels = schemes[scheme][:]
     if rng.random() < 0.4:
         rng.shuffle(labels)
     labels = labels[:nv]
-    nf = min(max_facets, rng.choice([0, 1, 1, 2, 2, 2, 3, 3, 3, 3]))
+    nf = min(max_facets, rng.choice([0, 1, 1, 2, 2, 2, 3, 3, 3, 3, 4, 4]))
     facets = []
     for _ in range(nf):
-        size = min(nv, rng.choice([1, 2, 2, 3, 3, 3, 3, 4, 4, 4, 5]))
+        # at most one generating simplex with 5 vertices and none with 6: keeps every complex <= 57 simplices
+        big = any(len(f) >= 5 for f in facets)
+        size = min(nv, 4 if big else 5, rng.choice([1, 2, 2, 3, 3, 3, 3, 4, 4, 4, 5]))
         f = rng.sample(labels, size)
         facets.append(f)
     idn = rng.choice(sorted(ID_SCHEMES))
@@ -170,7 +211,7 @@ def mat(B):
 
 
 def keys_of(d):
-    return [enc_id(d[i]) for i in range(len(d))]
+    return [enc_label(d[i]) for i in range(len(d))]
 
 
 def call_boundary(S, k, o):
@@ -242,9 +283,18 @@ def evaluate(rec, xs_rng=None):
     sizes = [len(ms) for ms in members.values()]
     dim = max(sizes) - 1 if sizes else 0
     nodes = list(S.nodes)
-    net = {"nodes": [enc_id(n) for n in nodes],
-           "simplices": [[enc_id(e), [enc_id(x) for x in ms]] for e, ms in members.items()]}
-    # the model receives the orientation dict exactly as the implementation does (None -> null)
+    # why the model is not asked (None = it is): float labels are outside the model; complexes beyond the size cap
+    # (never generated, only a hand-written corpus / replay case can be that large) are not sent to the driver
+    skip_model = None
+    try:
+        net = {"nodes": [enc_id(n) for n in nodes],
+               "simplices": [[enc_id(e), [enc_id(x) for x in ms]] for e, ms in members.items()]}
+    except ValueError:
+        net, skip_model = {"nodes": [], "simplices": []}, "labels-outside-model"
+    if len(nodes) > MAX_NODES or len(members) > MAX_SIMPLICES:
+        skip_model = "size-cap"
+    # the model receives the orientation dict exactly as the implementation does (None -> null; True -> 1, as
+    # Python's own arithmetic reads it)
     oj = None if o is None else [[enc_id(e), int(v)] for e, v in o.items()]
     orders = list(range(0, dim + 2))
     if rec.get("order") is not None:
@@ -357,7 +407,11 @@ def evaluate(rec, xs_rng=None):
                                   f"dim ker L_0 = {ker}, xgi.number_connected_components(1-skeleton) = {ncx}", k))
         if k == 0 and L.shape[0] == 0:
             res["ker"], res["ncomp"], res["ncomp_xgi"] = 0, n_components(S), None
-    info = {"dim": dim, "n_nodes": len(nodes), "n_simplices": len(members), "labels": sorted({type(n).__name__ for n in nodes})}
+    info = {"dim": dim, "n_nodes": len(nodes), "n_simplices": len(members), "labels": sorted({type(n).__name__ for n in nodes}),
+            "calls": len(reqs), "skip_model": skip_model,
+            "orient_values": sorted({repr(v) for v in (o or {}).values()})}
+    if skip_model:
+        reqs, impls = [], []
     return reqs, impls, fails, info
 
 
@@ -397,11 +451,41 @@ def shrink(rec, still_fails, budget=150):
                 c[key] = val
                 if ok(c):
                     rec, changed = c, True
-        if rec.get("orient", {}).get("mode") != "none":
+        cur = rec.get("orient", {}).get("mode", "none")
+        if cur not in CONST_MODES:
+            for mode in CONST_MODES:
+                c = copy.deepcopy(rec)
+                c["orient"] = {"mode": mode, "salt": 0}
+                if ok(c):
+                    rec, changed = c, True
+                    break
+        elif cur != "none":
             c = copy.deepcopy(rec)
             c["orient"] = {"mode": "none", "salt": 0}
             if ok(c):
                 rec, changed = c, True
+    cur = rec.get("orient", {})
+    budget = max(budget, 30)
+    if cur.get("mode", "none") not in CONST_MODES + ("explicit",):
+        # no constant orientation reproduces it: write the values out (the replay no longer depends on the hash
+        # rule), then drop them one at a time (a simplex without a listed value has orientation 0)
+        try:
+            S = build(rec)
+            vals = [[list(ms), orient_value(cur["mode"], ms, cur.get("salt", 0))] for ms in S.edges.members()
+                    if len(ms) >= 2 or cur.get("all_keys")]
+            c = copy.deepcopy(rec)
+            c["orient"] = {"mode": "explicit", "values": [[m, int(v)] for m, v in vals], "all_keys": bool(cur.get("all_keys"))}
+            if vals and all(isinstance(v, bool) for _, v in vals):
+                c["orient"]["bool"] = True
+            if ok(c):
+                rec = c
+                for i in range(len(rec["orient"]["values"]) - 1, -1, -1):
+                    c = copy.deepcopy(rec)
+                    del c["orient"]["values"][i]
+                    if ok(c):
+                        rec = c
+        except Exception:  # noqa
+            pass
     return rec
 
 
@@ -420,23 +504,40 @@ def process(ctx, recipes, name):
         except Exception as ex:  # noqa  (the construction itself failed: not C13's concern, but never silent)
             ctx.stats["recipe-build-raised:" + type(ex).__name__] += 1
             continue
-        ctx.evaluations += len(reqs)
+        ctx.evaluations += info["calls"]
+        if info["skip_model"]:
+            ctx.stats["predicate-only:" + info["skip_model"]] += 1
+            ctx.stats["predicate-only-calls"] += info["calls"]
+        for v in info["orient_values"]:
+            ctx.stats["orient-value:" + v] += 1
+        if any(v not in ("0", "1", "False", "True") for v in info["orient_values"]):
+            ctx.stats["complexes-with-orientation>=2"] += 1
         ctx.stats["dim:%d" % info["dim"]] += 1
         ctx.stats["labels:" + "+".join(info["labels"])] += 1
         ctx.stats["orient:" + rec.get("orient", {}).get("mode", "none")] += 1
         ctx.stats["ctor:" + rec.get("ctor", "add_simplex")] += 1
         ctx.stats["ids:" + ("auto" if rec.get("ids") is None else "explicit")] += 1
-        if info["dim"] >= 2:
+        if info["dim"] >= 2 and reqs:
             ctx.nontrivial.add(jhash([reqs[0]["nodes"], reqs[0]["simplices"], reqs[0]["orient"]]))
         for site, cls, detail, k in fails:
             def still(c, site=site, cls=cls):
                 return any(s == site and c2 == cls for s, c2, _, _ in evaluate(c, None)[2])
+            # a systematic defect fails on hundreds of recipes: shrink the first few per class; later occurrences are
+            # counted under the best shrunk witness (ctx.violation keeps the shortest case per (site, class))
+            key = "%s/%s" % (site, cls)
+            best = ctx.__dict__.setdefault("_c13_shrunk", {})
+            ctx.stats["predicate-failures:" + key] += 1
+            if cls != "not-psd" and ctx.stats["predicate-failures:" + key] > 4 and key in best:
+                ctx.violation(site, cls, *best[key])
+                continue
             small = shrink(rec, still) if cls != "not-psd" else rec
             if small is not rec:
                 try:
                     detail = next((d for s2, c2, d, _ in evaluate(small, None)[2] if s2 == site and c2 == cls), detail)
                 except Exception:  # noqa
                     pass
+            if key not in best or len(json.dumps(small, default=repr)) < len(json.dumps(best[key][0], default=repr)):
+                best[key] = (small, detail)
             ctx.violation(site, cls, small, detail=detail)
         if reqs:
             ctx.sample({"recipe": rec, "request": reqs[-1], "impl": impls[-1]}, cap=3)
@@ -507,7 +608,23 @@ FIXED = [
     {"facets": [[4, 3, 2, 1, 0]], "ids": None, "ctor": "add_simplices_from", "nodes_first": [4, 2, 0, 1, 3], "orient": {"mode": "crc", "salt": 3}},
     {"facets": [], "ids": None, "ctor": "add_simplex", "nodes_first": [1, 2], "orient": {"mode": "none"}},
     {"facets": [], "ids": None, "ctor": "add_simplex", "nodes_first": None, "orient": {"mode": "zeros"}},
+    # orientation values >= 2 act through their parity: order-1 branch ((-1) ** o) and the general branch
+    # (((o + order - i) % 2) + o[face]) — a triangle / tetrahedron with every simplex at 3, at 2, and mixed values
+    {"facets": [[0, 1, 2]], "ids": None, "ctor": "list", "nodes_first": None, "orient": {"mode": "threes"}},
+    {"facets": [[0, 1, 2, 3]], "ids": None, "ctor": "list", "nodes_first": None, "orient": {"mode": "twos"}},
+    {"facets": [[0, 1, 2]], "ids": None, "ctor": "list", "nodes_first": None,
+     "orient": {"mode": "explicit", "values": [[[0, 1], 3], [[0, 1, 2], 2]]}},
+    {"facets": [["b", 2, "a", 1]], "ids": ["t"], "ctor": "add_simplex", "nodes_first": None,
+     "orient": {"mode": "explicit", "values": [[[1, 2, "a"], 3], [[2, "a"], 2], [[1, 2, "a", "b"], 3], [[1, "b"], 1]]}},
+    {"facets": [[3, 1, 2, 0], [4, 0]], "ids": None, "ctor": "list", "nodes_first": None, "orient": {"mode": "int4", "salt": 11}},
+    {"facets": [[5, 4, 3, 2, 1], [1, 0], [0, 5]], "ids": None, "ctor": "add_simplices_from", "nodes_first": None,
+     "orient": {"mode": "mixed", "salt": 4}},
+    # float labels: predicate only (outside the model)
+    {"facets": [[0.5, -1.5, 2.25], [2.25, 3.0]], "ids": None, "ctor": "list", "nodes_first": None, "orient": {"mode": "int4", "salt": 2}},
 ]
+
+
+N_QUICK = 1200   # generated recipes in the quick tier (about 8 model calls each; the interpreted driver answers ~400-500 calls/s)
 
 
 def relabel(facets, labels):
@@ -517,14 +634,18 @@ def relabel(facets, labels):
 def run(ctx):
     ok = build_and_audit(ctx, "XgiModel.Props.C13", ["XgiModel.C13.Drive"])
     rng = ctx.rng
-    ctx.rule = ("recipes for a real xgi.SimplicialComplex: 0-3 generating simplices of 1-5 vertices on <= 5 vertices, 11 label "
+    ctx.rule = ("recipes for a real xgi.SimplicialComplex: 0-4 generating simplices of 1-5 vertices on <= 6 vertices, 11 label "
                 "schemes (ints, negative, text, numeric text, mixed int/str, case, unicode; optionally shuffled), automatic or "
                 "explicit simplex ids, 4 construction routes, optional add_nodes_from first (isolated nodes, non-sorted node order), "
-                "orientations None / all 0 / all 1 / pseudo-random ints / pseudo-random bools; every order 0..dim+1, both functions; "
-                "one evaluation = one call compared; non-trivial = distinct (complex, labels, orientation) with a simplex of order >= 2")
+                "orientations None / constant 0, 1, 2, 3 / pseudo-random int bits / bools / ints in 0..3 / bools and ints mixed; "
+                "every order 0..dim+1, both functions; plus a smaller batch with float labels evaluated on the implementation only; "
+                "one evaluation = one call compared (or, for float labels, one call whose result the predicate examined); "
+                "non-trivial = distinct (complex, labels, orientation) with a simplex of order >= 2")
     dis = process(ctx, corpus() + copy.deepcopy(FIXED), "C13~hodge_matrix (corpus + fixed)")
-    recipes = [gen_recipe(rng) for _ in range(ctx.n(250, 4000))]
+    recipes = [gen_recipe(rng) for _ in range(ctx.n(N_QUICK, 20000))]
     dis += process(ctx, recipes, "C13~hodge_matrix (generated)")
+    # "numeric labels" that are floats: outside the model, property predicate only
+    process(ctx, [gen_recipe(rng, floats=True) for _ in range(ctx.n(60, 1500))], "C13 predicate only (float labels)")
     if not ctx.quick:
         # exhaustive small scope of the correspondence: every complex generated by <= 3 simplices on 5 vertices,
         # once with plain labels and default orientation, once with a random labelling / ids / route / orientation
@@ -533,7 +654,7 @@ def run(ctx):
         for g in gens:
             ex.append({"facets": g, "ids": None, "ctor": "list", "nodes_first": None, "orient": {"mode": "none"}})
             scheme = rng.choice(sorted(LABEL_SCHEMES))
-            labels = LABEL_SCHEMES[scheme][:]
+            labels = LABEL_SCHEMES[scheme][:5]
             rng.shuffle(labels)
             idn = rng.choice(sorted(ID_SCHEMES))
             fs = relabel(g, labels)
@@ -550,7 +671,7 @@ def run(ctx):
                                          "and orientations=None, once relabelled/re-routed/oriented at random (validation of the model, not the proof)")
 
     def search():
-        more = [gen_recipe(rng) for _ in range(ctx.n(1500, 10000))]
+        more = [gen_recipe(rng, floats=(i % 10 == 9)) for i in range(ctx.n(1500, 10000))]
         for rec in more:
             try:
                 _, _, fails, _ = evaluate(rec, rng)
@@ -558,7 +679,9 @@ def run(ctx):
                 continue
             ctx.evaluations += 1
             for site, cls, detail, k in fails:
-                ctx.violation(site, cls, rec, detail=detail)
+                def still(c, site=site, cls=cls):
+                    return any(s2 == site and c2 == cls for s2, c2, _, _ in evaluate(c, None)[2])
+                ctx.violation(site, cls, shrink(rec, still) if cls != "not-psd" else rec, detail=detail)
     # no hidden state: boundary matrices / Hodge Laplacians of an edited complex must be those of its current structure
     from ..stale import check_sc
 
@@ -579,14 +702,26 @@ def run(ctx):
     }, ctx.n(40, 800))
     conclude(ctx, ok, dis, search)
     ctx.assumptions = [
-        "node labels are int or str (the code's sort key orders nothing else); bool/float/tuple labels outside the model",
-        "orientation dicts cover every simplex of order >= 1 with values in {0, 1, False, True}",
+        "node labels are int or str in the model (the code's sort key orders numbers before strings); float labels (the "
+        "'numeric labels' of the property text that are not ints) are OUTSIDE the model: such complexes are generated in a "
+        "separate batch and only the property predicate is evaluated on the implementation's matrices; bool/tuple labels are "
+        "not generated",
+        "orientation dicts cover every simplex of order >= 1 (a missing key is a KeyError, not C13's subject) with values in "
+        "{0, 1, 2, 3, False, True}: the docstrings say 'boolean orientation', the code uses the value only as an exponent of -1 "
+        "and as a summand mod 2, so every natural number is admissible and the model computes with naturals exactly as the "
+        "code does ((-1) ** o in the order-1 branch, (-1) ** ((o + order - i) % 2 + o[face]) otherwise); negative values are "
+        "never generated (the driver would answer 'unmodelled', never 'bad-op'); non-integer values are not generated",
+        "complexes have <= 6 vertices, <= 4 generating simplices and <= 57 simplices, orders <= 5 (thorough tier: additionally "
+        "every complex generated by <= 3 simplices on 5 vertices); a corpus / replay case above 7 nodes or 70 simplices is "
+        "evaluated on the implementation only",
         "theorems assume WF (ids unique, members duplicate-free nodes, no empty simplex, distinct member sets, downward closed); "
         "the driver decides WF on every complex the real constructor produced and the check fails if it does not hold",
         "numpy zeros / item assignment / transpose / @ / + are modelled as exact integer matrix operations",
         "dim ker L_0 = number of connected components is proved for the model's L_0 over every ordered field (ker_L0_finrank, "
         "with the component count nComponents the driver reports); on the implementation it is checked by exact rank over "
         "fractions against a union-find, xgi.number_connected_components of the 1-skeleton and the model's count",
+        "positive semidefiniteness is proved for integer and rational vectors (hodge_psd, hodge_psd_rat); on the implementation "
+        "it is sampled with 3 Gaussian vectors per matrix (x^T L x >= -1e-9) next to the exact identity L = B_k^T B_k + B_k+1 B_k+1^T",
     ]
     return finish(ctx, trusted_base=TRUSTED_COMMON + [
         "Python's list.sort(key=…) is a stable sort (model: stable insertion sort by the same key); itertools.combinations order = `combs`",
@@ -594,9 +729,27 @@ def run(ctx):
 
 
 def replay(ctx, path):
+    """`./check C13 --replay <file>`: same verdict logic as a run, on the one case; the evidence of a replay goes to
+    out/replay-evidence/C13.json — evidence/C13.json always describes a full run"""
+    from .. import core as _core
     j = json.load(open(path))
     rec = j.get("case", j)
-    ok = build_and_audit(ctx, "XgiModel.Props.C13", ["XgiModel.C13.Drive"])
-    dis = process(ctx, [rec], "C13~hodge_matrix (replay)")
-    conclude(ctx, ok, dis, None)
-    return finish(ctx, trusted_base=TRUSTED_COMMON)
+    if not (isinstance(rec, dict) and "facets" in rec):
+        raise Infra(f"{path} does not hold a C13 recipe (a model-tie/unproven replay has no concrete input to re-run)")
+
+    def _write(prop, ev):
+        d = os.path.join(_core.OUT, "replay-evidence")
+        os.makedirs(d, exist_ok=True)
+        ev = dict(ev, replay_of=os.path.abspath(path))
+        with open(os.path.join(d, prop + ".json"), "w") as f:
+            json.dump(_core.jsonable(ev), f, indent=1)
+    orig = _core.write_evidence
+    _core.write_evidence = _write
+    try:
+        ok = build_and_audit(ctx, "XgiModel.Props.C13", ["XgiModel.C13.Drive"])
+        ctx.rule = "replay of one recorded case"
+        dis = process(ctx, [rec], "C13~hodge_matrix (replay)")
+        conclude(ctx, ok, dis, None)
+        return finish(ctx, trusted_base=TRUSTED_COMMON)
+    finally:
+        _core.write_evidence = orig
